@@ -785,6 +785,8 @@ pub struct Obs {
     pub probes: BTreeMap<(String, String), (Status, Option<String>)>,
     /// closed functions whose result depends on the scope they are called from
     pub shadow_mismatch: Vec<String>,
+    /// reads of a bound name that do not give its value
+    pub context_mismatch: Vec<String>,
 }
 
 #[derive(Clone, Debug, Serialize, Deserialize)]
@@ -853,6 +855,23 @@ fn probe_sources(root: &str, path: &str, args: &[blots_core::values::LambdaArg])
     out
 }
 
+/// Ways of reading the bound name `n` that must all give its value.
+fn context_reads(n: &str) -> Vec<String> {
+    vec![
+        format!("((zz) => {})(0)", n),
+        format!("do {{ zz = 0; return {} }}", n),
+        format!("([0] via ((zz) => {}))[0]", n),
+        format!("if 1 .< 2 then {} else 0", n),
+        format!("{{{}: {}}}.{}", n, n, n),
+        format!("{{{}}}.{}", n, n),
+        format!("{{{}: (zz) => {}}}.{}(0)", n, n, n),
+        format!("{{zk: {{{}: (zz) => {}}}}}.zk.{}(0)", n, n, n),
+        format!("[(zz) => {}][0](0)", n),
+        format!("((zz?) => {})()", n),
+        format!("((...zz) => {})()", n),
+    ]
+}
+
 impl Model {
     pub fn new(sess: &Session, probe_every: bool) -> Model {
         let builtins = builtin_names();
@@ -901,6 +920,31 @@ impl Model {
                 let r = sess.probe(n);
                 self.stats.inc("probes");
                 o.probes.insert(("<unbound>".to_string(), n.to_string()), (if r.0 == Status::Ok { Status::Ok } else { Status::Err }, None));
+            }
+        }
+        // the value observed through a bound name is the same in whatever context it is read:
+        // inside a function, a do-block, a callback, a conditional, a record written with the
+        // name as its key, a function stored under that key
+        if with_probes {
+            for (k, _) in &root {
+                if k == "inputs" || !NAMES.contains(&k.as_str()) {
+                    continue;
+                }
+                let plain = match o.keys.get(k) {
+                    Some(Some(c)) if c != UNREADABLE => c.clone(),
+                    _ => continue,
+                };
+                for src in context_reads(k) {
+                    let r = sess.probe(&src);
+                    self.stats.inc("probes");
+                    self.stats.inc("context_reads");
+                    if r.0 == Status::Panic || r.0 == Status::NotRun {
+                        continue;
+                    }
+                    if r.0 != Status::Ok || r.1.as_deref() != Some(plain.as_str()) {
+                        o.context_mismatch.push(format!("`{}` gives {:?} but {} is {:?}", src, r, k, plain));
+                    }
+                }
             }
         }
         for (k, v) in &root {
@@ -1044,6 +1088,10 @@ impl Model {
                     }
                 }
             }
+        }
+        // 0d. a bound name reads the same in every context
+        if let Some(m) = after.context_mismatch.first() {
+            self.fail("value-differs-by-context", gi, m.clone());
         }
         // 0c. closed functions do not see the caller's names
         if let Some(m) = after.shadow_mismatch.first() {
